@@ -43,7 +43,7 @@ PROPS = {
         "min_nontrivial_frac": 0.3,
         "rule": GEN_TA + "single automata plus injected shapes (final state without rules + unreachable rule owner, no final state, rule over a never-productive child); "
                 "RemoveUnreachableStates / RemoveUselessStates (with and without translation map) compared by language with the input and checked for dead states/rules on the result; "
-                "IsLangEmpty against the productivity fixpoint, also along a 7-step history on one object (queries interleaved with copy-/move-assignment from an automaton of the opposite emptiness, SetStateFinal, EraseFinalStates, AddTransition). One case in 24 is LARGE (20-150 states: backbone through all states + the generated rules stretched over them; in the dense half every state owns the same leaf, so states are nearly totally ordered by simulation). Non-trivial: the input has an unreachable rule owner or an unproductive state. Distinct: hash of the case text.",
+                "IsLangEmpty against the productivity fixpoint, also along a 7-step history on one object (queries interleaved with copy-/move-assignment from an automaton of the opposite emptiness, SetStateFinal, EraseFinalStates, AddTransition). One case in 24 (C03: 48, C14: 64) is LARGE (20-150 states: backbone through all states + the generated rules stretched over them; in the dense half every state owns the same leaf, so states are nearly totally ordered by simulation). Non-trivial: the input has an unreachable rule owner or an unproductive state. Distinct: hash of the case text.",
         "assumptions": COMMON_ASSUMPTIONS,
     },
     "C04": {
@@ -63,7 +63,7 @@ PROPS = {
         "min_nontrivial_frac": 0.2,
         "rule": GEN_TA + "automata with sparse/dense numbers, useless states and (flavours 1,2) every state split in two copies to create simulation-equivalent states; "
                 "Reduce() / Reduce(TA_DOWNWARD): language equal to the input's, no more states, no more rules, and existence of a map from input states onto result states under which "
-                "every result rule/final is an image. One case in 24 is LARGE (20-150 states: backbone through all states + the generated rules stretched over them; in the dense half every state owns the same leaf, so states are nearly totally ordered by simulation). Non-trivial: two useful states are downward-simulation equivalent. Distinct: hash of the case text.",
+                "every result rule/final is an image. One case in 24 (C03: 48, C14: 64) is LARGE (20-150 states: backbone through all states + the generated rules stretched over them; in the dense half every state owns the same leaf, so states are nearly totally ordered by simulation). Non-trivial: two useful states are downward-simulation equivalent. Distinct: hash of the case text.",
         "assumptions": COMMON_ASSUMPTIONS,
     },
     "C06": {
@@ -83,7 +83,7 @@ PROPS = {
         "min_nontrivial_frac": 0.2,
         "rule": GEN_TA + "automaton + total state map (identity / injective / merging / into sparse numbers) through ReindexStates(functor), ReindexStates(dst, functor, addFinalStates) into empty and "
                 "non-empty destinations, ReindexStates(weak translator) empty and pre-filled, CollapseStates, and an arity-preserving symbol map through TranslateSymbols; the result must be "
-                "set-equal to the image. One case in 24 is LARGE (20-150 states: backbone through all states + the generated rules stretched over them; in the dense half every state owns the same leaf, so states are nearly totally ordered by simulation). Half of the inputs live over their own alphabet (symbol numbers differ from the default alphabet); results of the value-returning entry points are read through their own alphabet. Non-trivial: the map merges two owners of rules for the same symbol, or is a non-identity injection on an automaton with a non-nullary accepting run.",
+                "set-equal to the image. One case in 24 (C03: 48, C14: 64) is LARGE (20-150 states: backbone through all states + the generated rules stretched over them; in the dense half every state owns the same leaf, so states are nearly totally ordered by simulation). Half of the inputs live over their own alphabet (symbol numbers differ from the default alphabet); results of the value-returning entry points are read through their own alphabet. Non-trivial: the map merges two owners of rules for the same symbol, or is a non-identity injection on an automaton with a non-nullary accepting run.",
         "assumptions": COMMON_ASSUMPTIONS + ["state maps are total on the used states (CollapseStates/ReindexStates use at())"],
     },
     "C15": {
@@ -92,7 +92,7 @@ PROPS = {
         "thorough": {"workers": 16, "cases": 6000, "size": 36},
         "min_nontrivial_frac": 0.2,
         "rule": GEN_TA + "automata extended by chains of unary/binary rules (deep shortest trees), unproductive final states, leaf-only languages, empty languages; GetCandidateTree's result must be "
-                "language-included in the input (exact reference) and non-empty whenever the input is - also along a 6-step history on one object (queries interleaved with copy-/move-assignment from another automaton and the mutators). One case in 24 is LARGE (20-150 states: backbone through all states + the generated rules stretched over them; in the dense half every state owns the same leaf, so states are nearly totally ordered by simulation). Non-trivial: non-empty language and (shallowest found witness of depth >= 3 or an unproductive final state).",
+                "language-included in the input (exact reference) and non-empty whenever the input is - also along a 6-step history on one object (queries interleaved with copy-/move-assignment from another automaton and the mutators). One case in 24 (C03: 48, C14: 64) is LARGE (20-150 states: backbone through all states + the generated rules stretched over them; in the dense half every state owns the same leaf, so states are nearly totally ordered by simulation). Non-trivial: non-empty language and (shallowest found witness of depth >= 3 or an unproductive final state).",
         "assumptions": COMMON_ASSUMPTIONS,
     },
     "C09": {
